@@ -2,10 +2,16 @@
 from __future__ import annotations
 
 import ast
+import hashlib
+import os
 import re
 
+from . import e2_formula as F
 from .core import AnchorError, Unsupported
-from .e1_srcmodel import dotted, walk_no_nested, enclosing_stmt, parent, ancestors, utext
+from .e1_srcmodel import dotted, walk_no_nested
+from .e2_eval import is_unknown
+from .sem import split_call, place
+from .c18_sem import (explore, app, head, same, vkey, strip, find, walk, contains, const_of, sym_of, norm_atom, depends_on_sym)
 
 N2P = "pyyeti/nastran/n2p.py"
 OP2 = "pyyeti/nastran/op2.py"
@@ -188,67 +194,35 @@ def r1_lattice(ctx):
                   None if ok else {"mask": _bitsof(u)})
         seen |= u
     # 5. the '+' combination arm ORs the member masks
-    txt = ast.unparse(fn)
-    loop = [n for n in walk_no_nested(fn) if isinstance(n, ast.For)]
-    ok = False
-    for lp in loop:
-        for st in lp.body:
-            if isinstance(st, (ast.Assign, ast.AugAssign)):
-                v = st.value
-                if isinstance(st, ast.AugAssign) and isinstance(st.op, ast.BitOr):
-                    ok = True
-                if isinstance(v, ast.BinOp) and isinstance(v.op, ast.BitOr):
-                    ok = True
-    ctx.check(ok, "mkusetmask('x+y') ORs the masks of the named sets", loop[0] if loop else fn)
+    _plus_arm(ctx, fn)
 
 
-def r1b_producer(ctx):
-    fn = ctx.src.func(OP2, "OP2._rdop2uset")
-    table, _, _ = mask_table(ctx)
-    bits = nddl_bits(ctx)
-    sbit = 1 << bits["S"]
-    # sset = (uset & mkusetmask('s')) != 0 ; uset[sset] = uset[sset] & ~<S bit>
-    sel = None
-    clr = None
-    for st in walk_no_nested(fn):
-        if isinstance(st, ast.Assign) and isinstance(st.targets[0], ast.Name):
-            t = ast.unparse(st.value).replace(" ", "").replace('"', "'")
-            if "mkusetmask('s')" in t and "&" in t and "!=0" in t:
-                sel = (st.targets[0].id, st)
-        if isinstance(st, ast.Assign) and isinstance(st.targets[0], ast.Subscript) and sel:
-            tg = st.targets[0]
-            if isinstance(tg.slice, ast.Name) and tg.slice.id == sel[0]:
-                v = st.value
-                if isinstance(v, ast.BinOp) and isinstance(v.op, ast.BitAnd) and isinstance(v.right, ast.UnaryOp) \
-                        and isinstance(v.right.op, ast.Invert):
-                    consts = [c.value for c in ast.walk(v.right) if isinstance(c, ast.Constant) and isinstance(c.value, int)]
-                    lhs = ast.unparse(v.left).replace(" ", "")
-                    clr = (consts, lhs, utext(tg), st)
-    if not ctx.check(sel is not None, "_rdop2uset selects the s-set DOF with mkusetmask('s')", fn):
-        return
-    ok = clr is not None and clr[0] == [sbit] and clr[1] == clr[2]
-    ctx.check(ok, "_rdop2uset clears exactly the NDDL S bit (the bit mkusetmask gives to b) on s-set DOF, in place", clr[3] if clr else fn,
-              None if ok else {"found": clr[:3] if clr else None, "S bit": sbit})
-    ok = table["b"] & sbit == sbit and table["s"] & sbit == 0
-    ctx.check(ok, "the S bit is owned by mask['b'] and not by mask['s'] (so un-cleared s-set words would test as b-set)", fn)
-    # who-may-define: no literal copy of a multi-bit set mask anywhere else in the package
-    multi = {v for k, v in table.items() if bin(v).count("1") > 1}
-    hits = []
-    for rel in ctx.src.all_py():
-        m = ctx.src.mod(rel)
-        for node in ast.walk(m.tree):
-            if isinstance(node, ast.Constant) and isinstance(node.value, int) and not isinstance(node.value, bool) \
-                    and node.value in multi:
-                q = _enclosing_func(node)
-                if rel == N2P and q == "mkusetmask":
-                    continue
-                hits.append(f"{rel}:{node.lineno} literal {node.value}")
-    # docstring example outputs are strings, not int constants, so they do not count
-    ctx.check(not hits, "no module carries a literal copy of a multi-bit set mask (who-may-define: mkusetmask only)", N2P + ":1", hits)
-    # positive control for the expected-zero rule
-    ctl = ast.parse(f"x = {table['b']}")
-    found = [n for n in ast.walk(ctl) if isinstance(n, ast.Constant) and n.value in multi]
-    ctx.check(len(found) == 1, "positive control: the literal-mask detector matches a planted copy", N2P + ":1", nontrivial=False)
+def _plus_arm(ctx, fn):
+    """how the masks of the names of an 'x+y' request are combined: | (loop, reduce) is right, + / sum is provably wrong (shared bits carry)"""
+    ors, adds = [], []
+    for n in walk_no_nested(fn):
+        if isinstance(n, ast.For):
+            for st in ast.walk(n):
+                if isinstance(st, ast.AugAssign) and isinstance(st.op, (ast.BitOr, ast.Add)):
+                    (ors if isinstance(st.op, ast.BitOr) else adds).append(st)
+                elif isinstance(st, ast.Assign) and isinstance(st.value, ast.BinOp) and isinstance(st.value.op, (ast.BitOr, ast.Add)):
+                    (ors if isinstance(st.value.op, ast.BitOr) else adds).append(st)
+        elif isinstance(n, ast.Call):
+            d = dotted(n.func) or ""
+            a0 = dotted(n.args[0]) if n.args else None
+            if d in ("reduce", "functools.reduce") and a0 in ("operator.or_", "or_", "operator.ior", "ior", "np.bitwise_or"):
+                ors.append(n)
+            elif d in ("np.bitwise_or.reduce", "np.logical_or.reduce"):
+                ors.append(n)
+            elif d in ("sum", "np.sum", "math.fsum") or (d in ("reduce", "functools.reduce") and a0 in ("operator.add", "add", "operator.iadd")):
+                adds.append(n)
+    if ors and not adds:
+        ctx.ok("mkusetmask('x+y') ORs the masks of the named sets", ors[0])
+    elif adds:
+        ctx.fail("mkusetmask('x+y') ORs the masks of the named sets", adds[0],
+                 {"found": ast.unparse(adds[0])[:120], "consequence": "masks that share bits ('a+b', 'l+t') carry into other sets' bits when added"})
+    else:
+        ctx.error("mkusetmask('x+y'): how the masks of the named sets are combined is not recognised (rule knows |= in a loop and reduce(or_))", fn)
 
 
 def _enclosing_func(node):
@@ -260,193 +234,553 @@ def _enclosing_func(node):
     return None
 
 
+# ------------------------------------------------------------------------------------------------------------------
+# value helpers shared by the rules below (see c18_sem.py: every function is evaluated on symbols once per regime)
+NONE = F.sym("None")
+
+
+def _is_call(v, names, sig):
+    """{parameter: value} if v is a call of one of `names` (last dotted component), else None"""
+    sc = split_call(v)
+    if sc is None or sc[0].split(".")[-1] not in names:
+        return None
+    return place(sc[1], sc[2], sig)
+
+
+def _cmp_pair(v, op, a, b):
+    x = app(v, "cmp:" + op)
+    return bool(x) and len(x) == 2 and ((same(x[0], a) and same(x[1], b)) or (same(x[0], b) and same(x[1], a)))
+
+
+def _col(x, j):
+    return F.fn("idx", x, F.fn("tuple", F.fn("slice", NONE, NONE, NONE), F.const(j)))
+
+
+def _member(v):
+    """(p, q) if v is the membership test  (p & q) != 0  (also  .astype(bool) / bool() of the and)"""
+    a = app(v, "cmp:NotEq")
+    if a and len(a) == 2:
+        for x, z in ((a[0], a[1]), (a[1], a[0])):
+            if const_of(z) == 0:
+                b = app(x, "mask:BitAnd")
+                if b and len(b) == 2:
+                    return b
+    a = app(v, "astype")
+    if a and sym_of(a[1]) in ("bool", "np.bool_"):
+        b = app(a[0], "mask:BitAnd")
+        if b and len(b) == 2:
+            return b
+    return None
+
+
+def _first(paths, pred):
+    for p in paths:
+        if pred(p):
+            return p
+    return None
+
+
+def _show(v):
+    if isinstance(v, tuple):
+        return [_show(x) for x in v]
+    return repr(v)[:300]
+
+
+# ------------------------------------------------------------------------------------------------------------------
+def r1b_producer(ctx):
+    fn, paths = explore(ctx, OP2, "OP2._rdop2uset")
+    table, _, _ = mask_table(ctx)
+    bits = nddl_bits(ctx)
+    sbit = 1 << bits["S"]
+    rets = [p for p in paths if p.returned]
+    if not rets:
+        raise AnchorError("_rdop2uset: no returning path")
+    # the value returned is the raw record U, or U with U[M] replaced by U[M] & ~k, M = (U & mkusetmask('s')) != 0
+    found = []          # (path, U, M, cleared bits)
+    plain = []
+    odd = []
+    for p in rets:
+        a = app(p.ret, "upd")
+        if not a:
+            plain.append(p)
+            continue
+        U, M, val = a
+        cleared = None
+        b = app(val, "mask:BitAnd")
+        if b and len(b) == 2:
+            for x, k in ((b[0], b[1]), (b[1], b[0])):
+                if same(x, F.fn("idx", U, M)):
+                    inv = app(k, "invert")
+                    c = const_of(strip(inv[0])) if inv else None
+                    if c is not None and c.denominator == 1:
+                        cleared = int(c)
+                    elif const_of(k) is not None and const_of(k).denominator == 1:
+                        cleared = ~int(const_of(k)) & 0xFFFFFFFF
+        if cleared is None:
+            odd.append(p)
+        else:
+            found.append((p, U, M, cleared))
+    if odd:
+        ctx.error("_rdop2uset: store into the USET words not recognised as `words[sel] & ~bit`", odd[0].ret_node, _show(odd[0].ret))
+        return
+    sel_ok = bool(found)
+    for p, U, M, cleared in found:
+        m = _member(M)
+        good = False
+        if m:
+            for w, k in ((m[0], m[1]), (m[1], m[0])):
+                c = _is_call(k, ("mkusetmask",), ["nasset"])
+                if c is not None and same(w, U) and sym_of(c.get("nasset")) == "'s'":
+                    good = True
+        sel_ok = sel_ok and good
+    if not ctx.check(sel_ok, "_rdop2uset selects the s-set DOF with mkusetmask('s')", fn,
+                     None if sel_ok else [_show(f[2]) for f in found] or "no store into the USET words"):
+        return
+    # every regime in which some s-set DOF exists returns the cleared words
+    bad = [p for p in plain if not any(app(c, "any") and same(app(c, "any")[0], found[0][2]) and d is False for c, d, _ in p.atoms())]
+    ok = all(c == sbit for _, _, _, c in found) and not bad
+    ctx.check(ok, "_rdop2uset clears exactly the NDDL S bit (the bit mkusetmask gives to b) on s-set DOF, in place", found[0][0].ret_node,
+              None if ok else {"cleared": [c for _, _, _, c in found], "S bit": sbit, "uncleared regimes": [p.describe() for p in bad]})
+    ok = table["b"] & sbit == sbit and table["s"] & sbit == 0
+    ctx.check(ok, "the S bit is owned by mask['b'] and not by mask['s'] (so un-cleared s-set words would test as b-set)", fn)
+    # who-may-define: no literal copy of a multi-bit set mask anywhere else in the package
+    multi = {v for k, v in table.items() if bin(v).count("1") > 1}
+    hits = []
+    for rel in ctx.src.all_py():
+        for lineno, value, func in _int_literals(ctx, rel, multi):
+            if rel == N2P and func == "mkusetmask":
+                continue
+            hits.append(f"{rel}:{lineno} literal {value}")
+    # docstring example outputs are strings, not int constants, so they do not count
+    ctx.check(not hits, "no module carries a literal copy of a multi-bit set mask (who-may-define: mkusetmask only)", N2P + ":1", hits)
+    # positive control for the expected-zero rule
+    ctl_src = f"def f():\n    x = {table['b']}\n    y = 0x{table['a']:X}\n    z = {table['g']:_}\n"
+    found_ctl = [t for t in _NUM.findall(ctl_src) if _tok_int(t) in multi]
+    tree = ast.parse(ctl_src)
+    found_ast = [n for n in ast.walk(tree) if isinstance(n, ast.Constant) and n.value in multi]
+    ctx.check(len(found_ctl) == 3 and len(found_ast) == 3, "positive control: the literal-mask detector matches planted copies (decimal, hex, grouped digits)",
+              N2P + ":1", nontrivial=False)
+
+
+_NUM = re.compile(r"(?<![\w.])(0[xX][0-9a-fA-F_]+|0[oO][0-7_]+|0[bB][01_]+|[0-9][0-9_]*)(?![\w.])")
+
+
+def _tok_int(t):
+    try:
+        return int(t.replace("_", ""), 0)
+    except ValueError:
+        try:
+            return int(t.replace("_", ""))
+        except ValueError:
+            return None
+
+
+class _Scanned:
+    """a file that was read and scanned for integer literals but not parsed: it counts as consulted (digest in the evidence); the full
+    module model is built only if somebody asks for more than that"""
+
+    def __init__(self, src, rel, raw):
+        self.__dict__["_src"] = src
+        self.rel = rel
+        self.digest = hashlib.sha256(raw).hexdigest()[:16]
+
+    def __getattr__(self, name):
+        from .e1_srcmodel import Module
+        real = self.__dict__.get("_real")
+        if real is None:
+            src = self.__dict__["_src"]
+            real = self.__dict__["_real"] = Module(src.repo, self.rel)
+            src.mods[self.rel] = real
+        return getattr(real, name)
+
+
+def _int_literals(ctx, rel, wanted):
+    """(line, value, enclosing function) of every integer literal of the file whose value is in `wanted`.  A file is parsed only when its
+    text holds a numeric token with such a value (tokens inside strings / comments only cost the parse)."""
+    src = ctx.src
+    m = src.mods.get(rel)
+    if m is None or isinstance(m, _Scanned):
+        path = os.path.join(src.repo, rel)
+        with open(path, "rb") as f:
+            raw = f.read()
+        text = raw.decode("utf-8")
+        if not any(_tok_int(t) in wanted for t in _NUM.findall(text)):
+            if m is None:
+                src.mods[rel] = _Scanned(src, rel, raw)
+            return []
+        tree = ast.parse(text, filename=path)
+        if m is None:
+            src.mods[rel] = _Scanned(src, rel, raw)
+    else:
+        tree = m.tree
+    out = []
+
+    def visit(node, func):
+        for c in ast.iter_child_nodes(node):
+            f = c.name if isinstance(c, (ast.FunctionDef, ast.AsyncFunctionDef)) else func
+            if isinstance(c, ast.Constant) and isinstance(c.value, int) and not isinstance(c.value, bool) and c.value in wanted:
+                out.append((c.lineno, c.value, func))
+            visit(c, f)
+    visit(tree, None)
+    return out
+
+
+# ------------------------------------------------------------------------------------------------------------------
 def r2_mksetpv(ctx):
-    fn = ctx.src.func(N2P, "mksetpv")
-    defs = {}
-    for st in walk_no_nested(fn):
-        if isinstance(st, ast.Assign) and isinstance(st.targets[0], ast.Name):
-            defs.setdefault(st.targets[0].id, []).append(st)
-
-    def is_member(expr, maskname):
-        # (W & mask) != 0
-        return (isinstance(expr, ast.Compare) and len(expr.ops) == 1 and isinstance(expr.ops[0], ast.NotEq)
-                and isinstance(expr.comparators[0], ast.Constant) and expr.comparators[0].value == 0
-                and isinstance(expr.left, ast.BinOp) and isinstance(expr.left.op, ast.BitAnd)
-                and maskname in (ast.unparse(expr.left.left), ast.unparse(expr.left.right)))
-
+    """decided on the value `mksetpv` returns in every regime (isinstance tests x containment test)"""
+    fn, paths = explore(ctx, N2P, "mksetpv")
     args = [a.arg for a in fn.args.args]
     if len(args) < 3:
         raise AnchorError("mksetpv(uset, major, minor)")
     major, minor = args[1], args[2]
-    pvmaj = [k for k, v in defs.items() if any(is_member(s.value, major) for s in v)]
-    pvmin = [k for k, v in defs.items() if any(is_member(s.value, minor) for s in v)]
-    if not ctx.check(len(pvmaj) == 1 and len(pvmin) == 1,
-                     "mksetpv computes both membership vectors as (word & mask) != 0", fn, {"major": pvmaj, "minor": pvmin}):
+    rets = [p for p in paths if p.returned]
+    if not rets:
+        raise AnchorError("mksetpv: no returning path")
+
+    def role(pair, name):
+        """(how the mask of `name` enters, the other operand) for a membership pair"""
+        raw = F.sym(name)
+        for m, w in ((pair[0], pair[1]), (pair[1], pair[0])):
+            if same(m, raw):
+                return "raw", w, m
+            c = _is_call(m, ("mkusetmask",), ["nasset"])
+            if c is not None and same(c.get("nasset"), raw):
+                return "resolved", w, m
+        return None
+
+    info = []
+    shape_ok = True
+    for p in rets:
+        a = app(p.ret, "idx")
+        A, B = (a[0], a[1]) if a and len(a) == 2 else (None, None)
+        mA, mB = (_member(A) if A is not None else None), (_member(B) if B is not None else None)
+        info.append((p, A, B, mA, mB))
+        shape_ok = shape_ok and mA is not None and mB is not None
+    bad = _first(info, lambda t: t[3] is None or t[4] is None)
+    if not ctx.check(shape_ok, "mksetpv computes both membership vectors as (word & mask) != 0", bad[0].ret_node if bad else fn,
+                     None if shape_ok else {"returned": _show(bad[0].ret), "regime": bad[0].describe()}):
         return
-    pj, pn = pvmaj[0], pvmin[0]
-    # both from the same word column
-    wj = [s for s in defs[pj] if is_member(s.value, major)][0].value.left
-    wn = [s for s in defs[pn] if is_member(s.value, minor)][0].value.left
-    def other(b, nm):
-        return ast.unparse(b.right) if ast.unparse(b.left) == nm else ast.unparse(b.left)
-    ok = other(wj, major) == other(wn, minor)
-    ctx.check(ok, "mksetpv tests major and minor membership on the same USET words", fn)
-    # string arguments resolved through mkusetmask
-    for nm in (major, minor):
-        ok = any(isinstance(s.value, ast.Call) and dotted(s.value.func) == "mkusetmask"
-                 and ast.unparse(s.value.args[0]) == nm for s in defs.get(nm, []))
-        ctx.check(ok, f"mksetpv resolves a string `{nm}` through mkusetmask", fn)
-    # refusal: raise when ~major & minor non-empty
-    raises = [n for n in walk_no_nested(fn) if isinstance(n, ast.Raise)]
-    ok = False
-    for r in raises:
-        p = parent(r)
-        if isinstance(p, ast.If):
-            t = ast.unparse(p.test).replace(" ", "")
-            if t in (f"np.any(~{pj}&{pn})", f"np.any({pn}&~{pj})", f"(~{pj}&{pn}).any()", f"({pn}&~{pj}).any()"):
-                ok = True
-    ctx.check(ok, "mksetpv raises when some minor-set DOF is outside the major set (~major & minor)", fn)
+    # which operand is which mask; the value returned is  pvminor[pvmajor]
+    roles = []
+    for p, A, B, mA, mB in info:
+        roles.append((p, role(mA, minor), role(mB, major), role(mA, major), role(mB, minor)))
+    ok = all(rn is not None and rj is not None for _, rn, rj, _, _ in roles)
+    okw = ok and all(same(rn[1], rj[1]) for _, rn, rj, _, _ in roles)
+    ctx.check(okw or not ok, "mksetpv tests major and minor membership on the same USET words", fn,
+              None if okw or not ok else [(_show(rn[1]), _show(rj[1])) for _, rn, rj, _, _ in roles][:1])
+    # string arguments resolved through mkusetmask, integer masks used as they are
+    for nm, k in ((major, 2), (minor, 1)):
+        if not ok:
+            break
+        good, why = True, None
+        for t in roles:
+            p, r = t[0], t[k]
+            isstr = None
+            for c, d, _ in p.atoms():
+                ic = _is_call(c, ("isinstance",), ["obj", "cls"]) if c is not None else None
+                if ic and same(ic.get("obj"), F.sym(nm)) and sym_of(ic.get("cls")) == "str":
+                    isstr = d
+            want = {True: "resolved", False: "raw"}.get(isstr)
+            if want is None or r[0] != want:
+                good = False
+                why = {"regime": p.describe(), "mask used": _show(r[2])}
+        ctx.check(good, f"mksetpv resolves a string `{nm}` through mkusetmask", fn, why)
+    # refusal: every regime in which some DOF is in minor but not in major ends in the raise
+    viol_forms = []
+    refusal_ok = True
+    detail = None
+    undecidable = None
+    src_rows = roles if ok else []
+    for p, rn, rj, _, _ in src_rows:
+        A, B = app(p.ret, "idx")
+        viol = F.fn("any", _binop_and(F.fn("invert", B), A))
+        d = p.decided(viol)
+        if d is None:
+            viol = F.fn("any", F.fn("idx", A, F.fn("invert", B)))        # pvminor[~pvmajor].any()
+            d = p.decided(viol)
+        if d is False:
+            continue
+        if d is None:
+            other = [node for c, _, node in p.atoms() if c is not None and (contains(c, A) or contains(c, B))]
+            if other:
+                undecidable = (p, [(None, None, other[0])])
+            else:
+                refusal_ok = False
+                detail = {"regime": p.describe(), "missing test": _show(viol)}
+            continue
+        # the containment test was true and the function still returned: some other test kept it from raising
+        extra = []
+        for c, dd, node in p.atoms():
+            if c is None or same(c, viol) or (_is_call(c, ("isinstance",), ["obj", "cls"]) is not None):
+                continue
+            extra.append((c, dd, node))
+        fine = False
+        for c, dd, node in extra:
+            b = app(c, "mask:BitAnd")
+            if b and dd is False:
+                # (minor mask & ~major mask) == 0: the minor mask has no bit outside the major mask, so no DOF can be in minor only
+                for x, y in ((b[0], b[1]), (b[1], b[0])):
+                    iy = app(y, "invert")
+                    if iy and same(x, rn[2]) and same(iy[0], rj[2]):
+                        fine = True
+        if fine:
+            continue
+        swapped_short = False
+        for c, dd, node in extra:
+            b = app(c, "mask:BitAnd")
+            if b and dd is False:
+                for x, y in ((b[0], b[1]), (b[1], b[0])):
+                    iy = app(y, "invert")
+                    if iy and same(x, rj[2]) and same(iy[0], rn[2]):
+                        swapped_short = True
+        if swapped_short or not extra:
+            refusal_ok = False
+            detail = {"regime": p.describe(), "consequence": "a minor set that spills outside the major set is not refused "
+                      "(e.g. major 'b', minor 'a' with a q-set DOF in the table: major & ~minor == 0)"}
+        else:
+            undecidable = (p, extra)
+    if ok:
+        raising = [p for p in paths if p.raised is not None]
+        if not raising:
+            refusal_ok = False
+            detail = detail or "no regime ends in a raise"
+        if undecidable is not None and refusal_ok:
+            ctx.error("mksetpv: the refusal depends on a test this rule cannot interpret", undecidable[1][0][2],
+                      {"regime": undecidable[0].describe()})
+        else:
+            ctx.check(refusal_ok, "mksetpv raises when some minor-set DOF is outside the major set (~major & minor)", fn, detail)
     # result: minor restricted to major, in table order
-    rets = [n for n in walk_no_nested(fn) if isinstance(n, ast.Return)]
-    okr = False
-    for r in rets:
-        v = r.value
-        if isinstance(v, ast.Name) and v.id in defs:
-            v = defs[v.id][-1].value
-        if isinstance(v, ast.Subscript) and ast.unparse(v.value) == pn and ast.unparse(v.slice) == pj:
-            okr = True
-    ctx.check(okr, "mksetpv returns pvminor[pvmajor] (major-set length, minor-set DOF true, table order)", rets[-1] if rets else fn)
+    bad = _first(roles, lambda t: t[1] is None or t[2] is None)
+    ctx.check(ok, "mksetpv returns pvminor[pvmajor] (major-set length, minor-set DOF true, table order)", rets[-1].ret_node,
+              None if ok else {"returned": _show(bad[0].ret), "regime": bad[0].describe()})
 
 
-def _searchsorted_sites(fn):
+def _binop_and(a, b):
+    from .c18_sem import _binop18
+    return _binop18(ast.BinOp(left=None, op=ast.BitAnd(), right=None), a, b, None)
+
+
+# ------------------------------------------------------------------------------------------------------------------
+def _size_forms(arrays):
     out = []
-    for n in walk_no_nested(fn):
-        if isinstance(n, ast.Call) and dotted(n.func) in ("np.searchsorted",) or \
-                (isinstance(n, ast.Call) and isinstance(n.func, ast.Attribute) and n.func.attr == "searchsorted"):
-            out.append(n)
+    for x in arrays:
+        out += [F.fn("attr:size", x), F.fn("call:len", x), F.fn("idx", F.fn("attr:shape", x), F.const(0))]
     return out
 
 
-def _check_lookup(ctx, fn, call):
-    """sorted look-up with sorter: clamp + exact re-check before the positions are used."""
-    kw = {k.arg: k.value for k in call.keywords}
-    st = enclosing_stmt(call)
-    if not (isinstance(st, ast.Assign) and isinstance(st.targets[0], ast.Name) and "sorter" in kw and len(call.args) >= 2):
-        ctx.error("searchsorted site shape", call, ast.unparse(call))
-        return
-    pvi = st.targets[0].id
-    sorter = ast.unparse(kw["sorter"])
-    hay, needles = ast.unparse(call.args[0]), ast.unparse(call.args[1])
-    body = list(walk_no_nested(fn))
-    after = [n for n in body if isinstance(n, ast.stmt) and n.lineno > st.lineno]
-    # clamp: pvi[pvi == sorter.size] -= 1   (or len(sorter) / hay.size)
-    clamp = None
-    use = None
-    for n in after:
-        if isinstance(n, ast.AugAssign) and isinstance(n.op, ast.Sub) and isinstance(n.target, ast.Subscript) \
-                and ast.unparse(n.target.value) == pvi and ast.unparse(n.value) == "1":
-            t = ast.unparse(n.target.slice).replace(" ", "")
-            if t in (f"{pvi}=={sorter}.size", f"{pvi}==len({sorter})", f"{pvi}=={hay}.size", f"{pvi}==len({hay})",
-                     f"{pvi}=={sorter}.shape[0]", f"{pvi}=={hay}.shape[0]"):
-                clamp = n
-        if use is None and isinstance(n, ast.Assign) and isinstance(n.value, ast.Subscript) \
-                and ast.unparse(n.value.value) == sorter and ast.unparse(n.value.slice) == pvi:
-            use = n
-    if use is None:
-        # the index is not used in the recognised `sorter[index]` form: an idiom this rule does not know
-        ctx.error(f"look-up `{ast.unparse(call)}`: unrecognised use of the insertion index (rule knows `{sorter}[{pvi}]`)", call)
-        return
-    ctx.ok(f"look-up: positions are mapped back through the sorter `{sorter}[{pvi}]`", call)
-    # a direct sorter[pvi] with an unclamped index raises IndexError for a key above the maximum
-    if not ctx.check(clamp is not None and clamp.lineno < use.lineno,
-                     f"look-up `{ast.unparse(call)}`: the insertion index is clamped (== size -> size-1) before `{sorter}[{pvi}]`", call):
-        return
-    pv = use.targets[0].id if isinstance(use.targets[0], ast.Name) else None
-    # exact re-check: hay[pv] ==/!= needles
-    recheck = None
-    for n in body:
-        if isinstance(n, ast.Compare) and len(n.ops) == 1 and isinstance(n.ops[0], (ast.Eq, ast.NotEq)):
-            l, r = ast.unparse(n.left), ast.unparse(n.comparators[0])
-            if {l, r} == {f"{hay}[{pv}]", needles} and n.lineno > use.lineno:
-                recheck = n
-    if not ctx.check(recheck is not None,
-                     f"look-up: found positions are re-checked for exact equality ({hay}[{pv}] vs {needles})", use):
-        return
-    return pv, recheck
+def _clamp_kind(x, ss, arrays):
+    """how the index value x derives from the insertion index ss:  'raw' (ss itself), 'clamped' (ss with == size mapped into range), None"""
+    if same(x, ss):
+        return "raw"
+    sizes = _size_forms(arrays)
+
+    def is_size(v):
+        return any(same(v, n) for n in sizes)
+
+    def is_last(v):
+        return any(same(v, n - 1) for n in sizes)
+
+    def eq_size(c):
+        a = app(c, "cmp:Eq")
+        return bool(a) and ((same(a[0], ss) and is_size(a[1])) or (same(a[1], ss) and is_size(a[0])))
+
+    a = app(x, "upd")
+    if a and same(a[0], ss) and eq_size(a[1]):
+        # the cells where the index == size get  size + c
+        c = const_of(a[2] - F.fn("idx", ss, a[1]))
+        if c is None:
+            c = next((const_of(a[2] - n) for n in sizes if const_of(a[2] - n) is not None), None)
+        if c == -1:
+            return "clamped"
+        if c is not None and c >= 0:
+            return "raw"            # still >= size: out of range
+        return None
+    c = _is_call(x, ("minimum", "fmin"), ["x1", "x2"])
+    if c and ((same(c.get("x1"), ss) and is_last(c.get("x2"))) or (same(c.get("x2"), ss) and is_last(c.get("x1")))):
+        return "clamped"
+    c = _is_call(x, ("clip",), ["a", "a_min", "a_max"])
+    if c and same(c.get("a"), ss) and is_last(c.get("a_max")) and (const_of(c.get("a_min")) == 0 or sym_of(c.get("a_min")) == "None"):
+        return "clamped"
+    c = _is_call(x, ("where",), ["condition", "x", "y"])
+    if c and c.get("condition") is not None:
+        canon, pol, _ = norm_atom(c["condition"])
+        yes, no = (c.get("x"), c.get("y")) if pol else (c.get("y"), c.get("x"))
+        if canon is not None and eq_size(canon) and is_last(yes) and same(no, ss):
+            return "clamped"
+        g = app(canon, "cmp:Gt") if canon is not None else None
+        if g and is_size(g[0]) and same(g[1], ss) and same(yes, ss) and is_last(no):
+            return "clamped"
+    a = app(x, "op:Mod")
+    if a and same(a[0], ss) and is_size(a[1]):
+        return "clamped"            # wraps == size to 0: any in-range position will do, the re-check decides
+    return None
+
+
+class _Lookup:
+    """one checked sorted look-up on one path: searched keys H, requested keys N, sorter I, positions P = I[clamped insertion index]"""
+    pass
+
+
+def _analyse_lookup(p, cache):
+    """regimes that differ only in tests which do not involve the look-up share one analysis"""
+    node, s = p.sites[0]
+    obs = [p.ret] + [c for c, _, _ in p.atoms() if c is not None]
+    obs = [o for o in obs if contains(o, s["value"])]
+    key = (vkey(s["value"]), tuple(sorted({repr(vkey(o)) for o in obs})))
+    if key not in cache:
+        cache[key] = _analyse_lookup1(p, obs)
+    return cache[key]
+
+
+def _analyse_lookup1(p, obs):
+    node, s = p.sites[0]
+    L = _Lookup()
+    L.node, L.H, L.N, L.I, L.ss = node, s["a"], s["v"], s["sorter"], s["value"]
+    L.res = {}            # obligation -> ("ok" | "fail" | "error", detail)
+    L.P = None
+    L.base = L.H
+    L.sorted_copy = False
+    # the sorter sorts the searched keys
+    if sym_of(L.I) == "None":
+        a = app(L.H, "idx")
+        if a and same(a[1], F.fn("argsort", a[0])):
+            L.base, L.I, L.sorted_copy = a[0], a[1], True
+            L.res["sorter"] = ("ok", None)
+        else:
+            L.res["sorter"] = ("error", "searchsorted without a sorter on keys not recognised as sorted: " + _show(L.H))
+    elif same(L.I, F.fn("argsort", L.H)):
+        L.res["sorter"] = ("ok", None)
+    elif head(L.I) == "argsort":
+        L.res["sorter"] = ("fail", {"sorter": _show(L.I), "searched": _show(L.H)})
+    else:
+        L.res["sorter"] = ("error", "sorter not recognised as argsort of the searched keys: " + _show(L.I))
+    side = sym_of(s["side"])
+    L.res["side"] = ("ok", None) if side == "'left'" else (("fail", side) if side == "'right'" else ("error", _show(s["side"])))
+    if L.res["sorter"][0] == "error":
+        return L
+    L.obs = obs
+    arrays = [L.I, L.H, L.base]
+    uses = find(obs, lambda x: bool(app(x, "idx")) and same(app(x, "idx")[0], L.I) and contains(app(x, "idx")[1], L.ss))
+    kinds = {}
+    for u in uses:
+        kinds.setdefault(_clamp_kind(app(u, "idx")[1], L.ss, arrays), u)
+    if not uses:
+        stray = find(obs, lambda x: bool(app(x, "idx")) and contains(app(x, "idx")[1], L.ss))
+        direct = [x for x in stray if same(app(x, "idx")[0], L.base) and not L.sorted_copy]
+        if direct:
+            L.res["sorter-map"] = ("fail", {"use": _show(direct[0]), "consequence": "an index into the sorted order is applied to the unsorted keys"})
+        else:
+            L.res["sorter-map"] = ("error", "the insertion index is not used in the recognised `sorter[index]` form")
+        return L
+    L.res["sorter-map"] = ("ok", None)
+    if "raw" in kinds:
+        L.res["clamp"] = ("fail", {"use": _show(kinds["raw"]), "consequence": "a key above the maximum gives index == size: IndexError"})
+        return L
+    if None in kinds:
+        L.res["clamp"] = ("error", "index derived from the insertion point in a way this rule does not know: " + _show(app(kinds[None], "idx")[1]))
+        return L
+    L.res["clamp"] = ("ok", None)
+    L.P = kinds["clamped"]
+    L.C = app(L.P, "idx")[1]
+    # any other use of the insertion index (outside P)
+    stop = lambda x: same(x, L.P)
+    if any(same(x, L.ss) for x in walk(obs, stop)):
+        direct = find(obs, lambda x: bool(app(x, "idx")) and same(app(x, "idx")[0], L.base) and contains(app(x, "idx")[1], L.ss)
+                      and not contains(app(x, "idx")[1], L.P), stop)
+        if direct and not L.sorted_copy:
+            L.res["sorter-map"] = ("fail", {"use": _show(direct[0]), "consequence": "an index into the sorted order is applied to the unsorted keys"})
+            return L
+        if not (L.sorted_copy and all(same(app(x, "idx")[0], L.H) and same(app(x, "idx")[1], L.C)
+                                      for x in find(obs, lambda x: bool(app(x, "idx")) and contains(app(x, "idx")[1], L.ss)
+                                                    and not same(x, L.P), stop))):
+            L.res["sorter-map"] = ("error", "the insertion index is also used outside `sorter[index]`")
+            return L
+    # exact re-check: the keys found at P are compared with the requested keys
+    found = [F.fn("idx", L.base, L.P)] + ([F.fn("idx", L.H, L.C)] if L.sorted_copy else [])
+    L.found = found
+
+    def is_ne(x):
+        return any(_cmp_pair(x, "NotEq", k, L.N) for k in found)
+
+    def is_eq(x):
+        return any(_cmp_pair(x, "Eq", k, L.N) for k in found)
+
+    L.is_ne, L.is_eq = is_ne, is_eq
+    L.is_match = lambda m: is_eq(m) or (bool(app(m, "invert")) and is_ne(app(m, "invert")[0]))
+    L.is_mismatch = lambda m: is_ne(m) or (bool(app(m, "invert")) and is_eq(app(m, "invert")[0]))
+    if find(obs, lambda x: is_ne(x) or is_eq(x)):
+        L.res["recheck"] = ("ok", None)
+    elif find(obs, lambda x: any(same(x, k) for k in found)):
+        L.res["recheck"] = ("error", "the keys found are read back but not in a recognised ==/!= comparison with the requested keys")
+    else:
+        L.res["recheck"] = ("fail", {"positions": _show(L.P), "consequence": "a missing key silently yields the position of a neighbour"})
+    return L
+
+
+LOOKUP_TEXT = [
+    ("sorter", "look-up: the sorter is the argsort of the searched keys"),
+    ("side", "look-up: searchsorted returns the left insertion point (the first key >= the request)"),
+    ("sorter-map", "look-up: positions are mapped back through the sorter (sorter[index])"),
+    ("clamp", "look-up: the insertion index is clamped (== size -> in range) before it indexes the sorter"),
+    ("recheck", "look-up: found positions are re-checked for exact equality with the requested keys"),
+]
+
+
+def _report_lookup(ctx, name, looks):
+    """one obligation per look-up item, over all regimes that reach the look-up; False if the chain could not be established"""
+    complete = True
+    for key, text in LOOKUP_TEXT:
+        rs = [(L, L.res[key]) for L in looks if key in L.res]
+        if not rs:
+            complete = False
+            continue
+        worst = None
+        for L, (st, det) in rs:
+            if st == "fail" and (worst is None or worst[1][0] != "fail"):
+                worst = (L, (st, det))
+            elif st == "error" and worst is None:
+                worst = (L, (st, det))
+        if worst is None:
+            ctx.ok(f"{name} {text}", rs[0][0].node)
+        elif worst[1][0] == "fail":
+            ctx.fail(f"{name} {text}", worst[0].node, worst[1][1])
+            complete = False
+        else:
+            ctx.error(f"{name} {text}", worst[0].node, worst[1][1])
+            complete = False
+    return complete and all(L.P is not None and L.res.get("recheck", ("",))[0] == "ok" for L in looks)
+
+
+def _lookup_paths(ctx, rel, qual):
+    fn, paths = explore(ctx, rel, qual)
+    reach = [p for p in paths if p.sites]
+    if not reach:
+        raise AnchorError(f"{qual}: no searchsorted look-up reached")
+    if any(len(p.sites) != 1 for p in reach):
+        raise AnchorError(f"{qual}: one searchsorted site expected")
+    unk = _first(reach, lambda p: p.returned and (p.ret is None or any(is_unknown(x) for x in (p.ret if isinstance(p.ret, tuple) else (p.ret,)))))
+    if unk is not None:
+        raise Unsupported(f"{qual}: returned value not lowered in the regime `{unk.describe()}`: {_show(unk.ret)}")
+    return fn, paths, reach
+
+
+def _anymis(p, L):
+    """truth of `some requested key was not found` on the path (None: never tested)"""
+    for c, d, _ in p.atoms():
+        if c is None:
+            continue
+        a = app(c, "any")
+        if a and L.is_mismatch(a[0]):
+            return d
+        a = app(c, "all")
+        if a and L.is_match(a[0]):
+            return not d
+    return None
 
 
 def r3_checked_lookup(ctx):
-    fn = ctx.src.func(N2P, "mkdofpv")
-    sites = [c for c in _searchsorted_sites(fn)]
-    if len(sites) != 1:
-        raise AnchorError("mkdofpv: one searchsorted site expected")
-    r = _check_lookup(ctx, fn, sites[0])
-    if r:
-        pv, recheck = r
-        st = enclosing_stmt(recheck)
-        chk = st.targets[0].id if isinstance(st, ast.Assign) and isinstance(st.targets[0], ast.Name) else None
-        neq = isinstance(recheck.ops[0], ast.NotEq)
-        ifs = [n for n in walk_no_nested(fn) if isinstance(n, ast.If) and chk and ast.unparse(n.test).replace(" ", "") in
-               (f"{chk}.any()", f"np.any({chk})", f"any({chk})")]
-        ok = bool(ifs) and neq
-        if ctx.check(ok, "mkdofpv: a mismatch mask from the re-check gates the strict/non-strict handling", st):
-            top = ifs[0]
-            strict_if = [n for n in top.body if isinstance(n, ast.If) and ast.unparse(n.test) == "strict"]
-            ok = bool(strict_if) and any(isinstance(x, ast.Raise) for x in ast.walk(strict_if[0]) if x in strict_if[0].body or True) \
-                and any(isinstance(x, ast.Raise) for x in strict_if[0].body)
-            ctx.check(ok, "mkdofpv: strict=True raises when a requested DOF is missing", top)
-            if strict_if:
-                els = strict_if[0].orelse
-                txt = [utext(s) for s in els]
-                inv = [t for t in txt if t.startswith(f"{chk}=~{chk}")]
-                fpv = [t for t in txt if t == f"{pv}={pv}[{chk}]"]
-                fdof = [t for t in txt if re.fullmatch(rf"(\w+)=\1\[{chk}\]", t) and not t.startswith(pv + "=")]
-                ok = bool(inv) and bool(fpv) and bool(fdof)
-                ctx.check(ok, "mkdofpv: strict=False filters positions and the returned DOF list by the same exact-match mask", strict_if[0], txt)
-    # the returned pair
-    rets = [n for n in walk_no_nested(fn) if isinstance(n, ast.Return)]
-    ok = bool(rets) and isinstance(rets[-1].value, ast.Tuple) and len(rets[-1].value.elts) == 2
-    ctx.check(ok, "mkdofpv returns (pv, dof)", fn, nontrivial=False)
-    # key construction identical on both sides: id*10 + dof
-    keys = [ast.unparse(n.value).replace(" ", "") for n in walk_no_nested(fn)
-            if isinstance(n, ast.Assign) and "*10+" in ast.unparse(n.value).replace(" ", "")]
-    ok = len(keys) >= 3 and all("*10+" in k for k in keys)
-    ctx.check(ok, "mkdofpv: table keys and requested keys are both id*10 + component", fn, keys)
-    # locate.mat_intersect
-    fn = ctx.src.func(LOCATE, "mat_intersect")
-    sites = _searchsorted_sites(fn)
-    if len(sites) != 1:
-        raise AnchorError("mat_intersect: one searchsorted site expected")
-    r = _check_lookup(ctx, fn, sites[0])
-    if r:
-        pv, recheck = r
-        st = enclosing_stmt(recheck)
-        ok = isinstance(recheck.ops[0], ast.Eq) and isinstance(st, ast.Assign) and "np.where" in ast.unparse(st.value)
-        ctx.check(ok, "mat_intersect: only exact matches are kept (np.where(haystack[pv2] == needles))", st)
-        if ok:
-            p1 = st.targets[0].id
-            txt = [utext(s) for s in walk_no_nested(fn) if isinstance(s, ast.Assign)]
-            ok = f"{pv}={pv}[{p1}]" in txt
-            ctx.check(ok, "mat_intersect: haystack positions are trimmed by the same match vector", st)
-    # the keys that are searched and re-checked are byte views of both inputs in ONE common, lossless type
-    bv = [n for n in walk_no_nested(fn) if isinstance(n, ast.Call) and dotted(n.func) == "_bytes_view" and len(n.args) == 2]
-    if len(bv) != 2:
-        ctx.error("mat_intersect: two _bytes_view conversions expected", fn, len(bv))
-    else:
-        tys = {ast.unparse(c.args[1]) for c in bv}
-        ops = sorted(ast.unparse(c.args[0]) for c in bv)
-        ok = len(tys) == 1
-        ctx.check(ok, "mat_intersect: haystack and needles are viewed in the same dtype before the search and the re-check", bv[0], sorted(tys))
-        if ok:
-            tname = tys.pop()
-            tdef = [s2 for s2 in walk_no_nested(fn) if isinstance(s2, ast.Assign) and ast.unparse(s2.targets[0]) == tname]
-            good = False
-            if tdef and isinstance(tdef[-1].value, ast.Call) and dotted(tdef[-1].value.func) == "np.result_type":
-                a = sorted(ast.unparse(x) for x in tdef[-1].value.args)
-                good = a == sorted(f"{o}.dtype" for o in ops)
-            ctx.check(good, "mat_intersect: that dtype is np.result_type of both inputs (a conversion that is exact for both; casting the "
-                            "needles to the haystack type would make 3.9 match 3 and survive the re-check)", tdef[-1] if tdef else fn,
-                      None if good else (ast.unparse(tdef[-1]) if tdef else "no definition"))
+    _r3_mkdofpv(ctx)
+    _r3_mat_intersect(ctx)
     # other sorted-search sites in the anchored modules, listed with their kind
     others = []
     for rel in (N2P, LOCATE):
@@ -454,40 +788,322 @@ def r3_checked_lookup(ctx):
         for q, f in m.funcs.items():
             for c in _searchsorted_sites(f):
                 kw = {k.arg for k in c.keywords}
-                if "sorter" in kw and q not in ("mkdofpv", "mat_intersect"):
+                if ("sorter" in kw or len(c.args) >= 4 - (dotted(c.func) != "np.searchsorted")) and q.split(".")[0] not in ("mkdofpv", "mat_intersect"):
                     others.append(f"{rel}:{c.lineno} {q}")
     ctx.check(not others, "no other sorter-based look-up exists in n2p.py / locate.py without this rule being bound to it",
               N2P + ":1", others)
 
 
-def r4_expanddof(ctx):
-    fn = ctx.src.func(N2P, "expanddof")
-    # the digit-expansion statement: [[node, int(i)] for node, arg in dof for i in str(arg)]
-    exp = None
-    for st in fn.body:
-        if isinstance(st, ast.Assign) and any(isinstance(n, ast.ListComp) for n in ast.walk(st.value)) \
-                and "str(" in ast.unparse(st.value):
-            exp = st
-    if not ctx.check(exp is not None, "expanddof has a digit-expansion arm (str(component) -> digits)", fn):
+def _searchsorted_sites(fn):
+    out = []
+    for n in walk_no_nested(fn):
+        if isinstance(n, ast.Call) and (dotted(n.func) == "np.searchsorted" or (isinstance(n.func, ast.Attribute) and n.func.attr == "searchsorted")):
+            out.append(n)
+    return out
+
+
+def _r3_mkdofpv(ctx):
+    fn, paths, reach = _lookup_paths(ctx, N2P, "mkdofpv")
+    cache = {}
+    looks = {id(p): _analyse_lookup(p, cache) for p in reach}
+    if not _report_lookup(ctx, "mkdofpv", list(looks.values())):
         return
-    name = exp.targets[0].id
-    after = fn.body[fn.body.index(exp) + 1:]
-    guard = None
-    for st in after:
-        if isinstance(st, ast.If) and any(isinstance(x, ast.Raise) for x in st.body):
-            t = ast.unparse(st.test).replace(" ", "")
-            if f"{name}[:,1]>6" in t:
-                guard = st
-        if isinstance(st, ast.Return):
-            break
-    ctx.check(guard is not None, "expanddof: expanded components > 6 are refused before returning", exp)
+    strict = F.sym("strict")
+    if "strict" not in [a.arg for a in fn.args.args + fn.args.kwonlyargs]:
+        raise AnchorError("mkdofpv(..., strict=...)")
+    # the request list D behind the requested keys N = D[:, 0] * 10 + D[:, 1]
+    rows = []
+    for p in reach:
+        L = looks[id(p)]
+        ds = find(L.N, lambda x: bool(app(x, "idx")) and same(x, _col(app(x, "idx")[0], 0)))
+        D = app(ds[0], "idx")[0] if ds else None
+        rows.append((p, L, D))
+    # classify what each regime does after the look-up
+    def outcome(p, L, D):
+        if p.raised is not None:
+            return "raise"
+        r = p.ret
+        if not (isinstance(r, tuple) and len(r) == 2) or D is None:
+            return "unknown"
+        if same(r[0], L.P) and same(r[1], D):
+            return "full"
+        a, b = app(r[0], "idx"), app(r[1], "idx")
+        fa, fb = bool(a) and same(a[0], L.P), bool(b) and same(b[0], D)
+        ua, ub = same(r[0], L.P), same(r[1], D)
+        if fa and fb:
+            return "filtered" if same(a[1], b[1]) and L.is_match(a[1]) else "misfiltered"
+        if (fa and ub) or (ua and fb):
+            return "misfiltered"
+        return "unknown"
+
+    outs = [(p, L, D, outcome(p, L, D), _anymis(p, L), p.decided(strict)) for p, L, D in rows]
+    unk = _first(outs, lambda t: t[3] == "unknown")
+    if unk is not None:
+        ctx.error("mkdofpv: value returned after the look-up not recognised", unk[0].ret_node, {"regime": unk[0].describe(), "returned": _show(unk[0].ret)})
+        return
+    # mismatch and strict: must raise
+    bad = _first(outs, lambda t: t[4] is not False and t[5] is not False and t[3] != "raise")
+    ctx.check(bad is None, "mkdofpv: strict=True raises when a requested DOF is missing", (bad[0].ret_node if bad else None) or fn,
+              None if bad is None else {"regime": bad[0].describe(), "outcome": bad[3]})
+    # mismatch and not strict: positions and DOF list filtered by the same exact-match mask
+    bad = _first(outs, lambda t: t[4] is not False and t[5] is not True and ((t[3] == "raise" and t[5] is False) or t[3] in ("full", "misfiltered")))
+    ctx.check(bad is None, "mkdofpv: strict=False filters positions and the returned DOF list by the same exact-match mask",
+              (bad[0].ret_node if bad else None) or fn, None if bad is None else {"regime": bad[0].describe(), "outcome": bad[3], "returned": _show(bad[0].ret)})
+    # no mismatch: every request is answered
+    bad = _first(outs, lambda t: t[4] is False and t[3] not in ("full", "filtered"))
+    have = any(t[4] is False or (t[4] is None and t[3] == "filtered") for t in outs)
+    ctx.check(bad is None and have, "mkdofpv returns (pv, dof): all positions and the whole request when every DOF was found", (bad[0].ret_node if bad else None) or fn,
+              None if bad is None else {"regime": bad[0].describe(), "outcome": bad[3]})
+    # key construction identical on both sides: id*10 + component
+    okN = all(D is not None and same(L.N, _col(D, 0) * 10 + _col(D, 1)) for p, L, D in rows)
+    okH = True
+    part_ok, part_seen, part_bad = True, False, None
+    uset = F.sym(fn.args.args[0].arg)
+    nasset = fn.args.args[1].arg
+    for p, L, D in rows:
+        H = strip(L.H)
+        tab = find(H, lambda x: bool(app(x, "idx")) and same(x, _col(app(x, "idx")[0], 0)))
+        if tab:
+            U = app(tab[0], "idx")[0]
+            good = same(H, _col(U, 0) * 10 + _col(U, 1))
+        else:
+            lv = find(H, lambda x: (_is_call(x, ("get_level_values",), ["self", "level"]) or {}).get("level") is not None)
+            ids = [x for x in lv if sym_of(_is_call(x, ("get_level_values",), ["self", "level"])["level"]) == "'id'"]
+            dfs = [x for x in lv if sym_of(_is_call(x, ("get_level_values",), ["self", "level"])["level"]) == "'dof'"]
+            good = len(ids) == 1 and len(dfs) == 1 and same(H, ids[0] * 10 + dfs[0])
+            U = None
+            if good:
+                i1 = _is_call(ids[0], ("get_level_values",), ["self", "level"])["self"]
+                i2 = _is_call(dfs[0], ("get_level_values",), ["self", "level"])["self"]
+                good = same(i1, i2) and bool(app(i1, "attr:index"))
+                U = app(i1, "attr:index")[0] if good else None
+            if good:
+                # the table is restricted to the requested set unless that set is 'p' (all DOF)
+                isp = p.decided(F.fn("cmp:Eq", F.sym(nasset), F.sym("'p'")))
+                sel = app(U, "idx")
+                if sel and (same(sel[0], F.fn("attr:loc", uset)) or same(sel[0], uset)):
+                    c = _is_call(sel[1], ("mksetpv",), ["uset", "major", "minor"])
+                    g = bool(c) and same(c.get("uset"), uset) and sym_of(c.get("major")) == "'p'" and same(c.get("minor"), F.sym(nasset))
+                    part_seen = part_seen or g
+                    if not g:
+                        part_ok, part_bad = False, (p, U)
+                elif same(U, uset):
+                    if isp is not True:
+                        part_ok, part_bad = False, (p, U)
+                else:
+                    part_ok, part_bad = False, (p, U)
+        okH = okH and good
+    ctx.check(okN and okH, "mkdofpv: table keys and requested keys are both id*10 + component", fn,
+              None if okN and okH else {"requested": _show(rows[0][1].N), "table": _show(rows[0][1].H)})
+    ctx.check(part_ok and part_seen, "mkdofpv: a DataFrame table is restricted to the requested set by mksetpv(uset, 'p', nasset) before the look-up "
+                                     "(positions are positions within that set)", fn,
+              None if part_ok and part_seen else ({"regime": part_bad[0].describe(), "table": _show(part_bad[1])} if part_bad else "no partition found"))
+    # the request is expanded (ids -> 6 DOF, 123456 -> digits) before the keys are built
+    par = fn.args.args[2].arg
+    good = True
+    for p, L, D in rows:
+        c = _is_call(D, ("expanddof",), ["dof", "grids_only"]) if D is not None else None
+        good = good and bool(c) and same(c.get("dof"), F.sym(par)) and same(c.get("grids_only"), F.sym("grids_only"))
+    ctx.check(good, "mkdofpv: the requested keys are built from expanddof(dof, grids_only)", fn, None if good else _show(rows[0][2]))
+
+
+def _key_view(v):
+    """(raw array, dtype it is converted to) for a search key that is a byte view of a converted array"""
+    v = strip(v, names=())
+    c = _is_call(v, ("_bytes_view",), ["arr", "dtype"])
+    if c and c.get("arr") is not None and c.get("dtype") is not None:
+        return c["arr"], c["dtype"]
+    a = _is_call(v, ("view",), ["self", "dtype"])
+    if a and a.get("self") is not None:
+        v = a["self"]
+    conv = app(v, "astype")
+    if conv:
+        return conv[0], conv[1]
+    return None
+
+
+def _r3_mat_intersect(ctx):
+    fn, paths, reach = _lookup_paths(ctx, LOCATE, "mat_intersect")
+    cache = {}
+    looks = {id(p): _analyse_lookup(p, cache) for p in reach}
+    chain = _report_lookup(ctx, "mat_intersect", list(looks.values()))
+    d1, d2 = fn.args.args[0].arg, fn.args.args[1].arg
+    if chain:
+        def sel_index(x, L):
+            a = app(x, "idx")
+            if a and const_of(a[1]) == 0:
+                n = app(a[0], "nonzero")
+                return bool(n) and L.is_eq(n[0])
+            return False
+
+        exact_ok, trim_ok, order_ok = True, True, True
+        det = None
+        for p in reach:
+            L = looks[id(p)]
+            if not p.returned:
+                continue
+            r = p.ret
+            if not (isinstance(r, tuple) and len(r) == 2):
+                ctx.error("mat_intersect: value returned after the look-up not recognised", p.ret_node, _show(r))
+                return
+            kv = _key_view(L.N)
+            nraw = kv[0] if kv else L.N
+            from_d1 = depends_on_sym(nraw, d1) and not depends_on_sym(nraw, d2)
+            from_d2 = depends_on_sym(nraw, d2) and not depends_on_sym(nraw, d1)
+            if not (from_d1 or from_d2):
+                ctx.error("mat_intersect: cannot tell which input the requested keys come from", L.node, _show(nraw))
+                return
+            # r[0] indexes D1, r[1] indexes D2
+            need_sel, hay_pos = (r[0], r[1]) if from_d1 else (r[1], r[0])
+            if not sel_index(need_sel, L):
+                if sel_index(hay_pos, L):
+                    order_ok = False
+                else:
+                    exact_ok = False
+                det = det or {"regime": p.describe(), "returned": _show(r)}
+                continue
+            a = app(hay_pos, "idx")
+            if not (a and same(a[0], L.P) and (sel_index(a[1], L) or L.is_eq(a[1]))):
+                trim_ok = False
+                det = det or {"regime": p.describe(), "returned": _show(r)}
+        ctx.check(exact_ok, "mat_intersect: only exact matches are kept (the rows of the requested keys where haystack[pv2] == needles)", fn, None if exact_ok else det)
+        ctx.check(trim_ok, "mat_intersect: haystack positions are trimmed by the same match vector", fn, None if trim_ok else det)
+        ctx.check(order_ok, "mat_intersect: the first output indexes D1 and the second D2 whichever input is searched (D1[pv1] == D2[pv2])", fn,
+                  None if order_ok else det)
+    # the keys that are searched and re-checked are byte views of both inputs in ONE common, lossless type
+    same_ok, common_ok, det = True, True, None
+    for p in reach:
+        L = looks[id(p)]
+        kh, kn = _key_view(L.H), _key_view(L.N)
+        if kh is None or kn is None:
+            ctx.error("mat_intersect: search keys not recognised as converted views of the inputs", L.node, {"haystack": _show(L.H), "needles": _show(L.N)})
+            return
+        (hraw, th), (nraw, tn) = kh, kn
+        if not same(th, tn):
+            same_ok = False
+            det = det or sorted([_show(th), _show(tn)])
+            continue
+        c = split_call(th)
+        good = False
+        if c and c[0].split(".")[-1] in ("result_type", "promote_types") and len(c[1]) == 2 and not c[2]:
+            want = [(F.fn("attr:dtype", hraw), F.fn("attr:dtype", nraw)), (hraw, nraw)]
+            good = any((same(c[1][0], a) and same(c[1][1], b)) or (same(c[1][0], b) and same(c[1][1], a)) for a, b in want)
+        elif not (c or same(th, F.fn("attr:dtype", hraw)) or same(th, F.fn("attr:dtype", nraw))):
+            ctx.error("mat_intersect: common dtype of the search keys not recognised", L.node, _show(th))
+            return
+        if not good:
+            common_ok = False
+            det = det or _show(th)
+    ctx.check(same_ok, "mat_intersect: haystack and needles are viewed in the same dtype before the search and the re-check", fn, None if same_ok else det)
+    if same_ok:
+        ctx.check(common_ok, "mat_intersect: that dtype is np.result_type of both inputs (a conversion that is exact for both; casting the "
+                             "needles to the haystack type would make 3.9 match 3 and survive the re-check)", fn, None if common_ok else det)
+
+
+# ------------------------------------------------------------------------------------------------------------------
+def _exceeds(c):
+    """(X, bound, negated) if the test value says `some element of X > bound` (negated: `no element ...`)"""
+    g = app(c, "cmp:Gt")
+    if g:
+        m = _is_call(g[0], ("max", "amax"), ["a"])
+        if m and m.get("a") is not None and const_of(g[1]) is not None:
+            return m["a"], const_of(g[1]), False
+    for red, neg in (("any", False), ("all", True)):
+        a = app(c, red)
+        if not a:
+            continue
+        m = a[0]
+        for nm, swap in ((("cmp:Gt", False), ("cmp:Lt", True)) if not neg else (("cmp:LtE", False), ("cmp:GtE", True))):
+            x = app(m, nm)
+            if x:
+                arr, b = (x[1], x[0]) if swap else (x[0], x[1])
+                if const_of(b) is not None:
+                    return arr, const_of(b), neg
+    return None
+
+
+def _some_exceed(p, arr, bound):
+    """truth on path p of `some element of arr > bound` (None: not tested)"""
+    for c, d, _ in p.atoms():
+        e = _exceeds(c) if c is not None else None
+        if e and same(e[0], arr) and e[1] == bound:
+            return d != e[2]
+    return None
+
+
+def r4_expanddof(ctx):
+    fn, paths = explore(ctx, N2P, "expanddof")
+    dofp = fn.args.args[0].arg
+    gop = fn.args.args[1].arg if len(fn.args.args) > 1 else "grids_only"
+    rets = [p for p in paths if p.returned]
+    kinds = []
+    for p in rets:
+        v = strip(p.ret) if not isinstance(p.ret, tuple) else None
+        if v is None or is_unknown(v):
+            k = "unknown"
+        elif find(v, lambda x: head(x) == "call:str"):
+            k = "digits"
+        elif head(v) == "comp":
+            k = "ids"
+        elif sym_of(v) == dofp:
+            k = "as-is"
+        elif const_of(v) is not None:
+            k = "empty"
+        else:
+            k = "unknown"
+        kinds.append((p, k, v))
+    unk = _first(kinds, lambda t: t[1] == "unknown")
+    if unk is not None:
+        ctx.error("expanddof: returned value not recognised", unk[0].ret_node, {"regime": unk[0].describe(), "returned": _show(unk[0].ret)})
+        return
+    digits = [t for t in kinds if t[1] == "digits"]
+    if not ctx.check(bool(digits), "expanddof has a digit-expansion arm (str(component) -> digits)", fn):
+        return
+    # the digit expansion is refused when a digit exceeds 6
+    bad, unclear = None, None
+    for p, k, v in digits:
+        t = _some_exceed(p, _col(v, 1), 6)
+        if t is False:
+            continue
+        # a test on the expanded value that is not an understood `some element of X > c` test: the rule cannot tell what it refuses
+        looks_at = [c for c, d, _ in p.atoms() if c is not None and find(c, lambda x: head(x) == "call:str") and _exceeds(c) is None]
+        if t is None and looks_at:
+            unclear = (p, looks_at[0])
+        else:
+            bad = p
+    guard = any(p.raised is not None and any(c is not None and _exceeds(c) and _exceeds(c)[1] == 6 and find(c, lambda x: head(x) == "call:str")
+                                             and d != _exceeds(c)[2] for c, d, _ in p.atoms()) for p in paths)
+    if bad is None and unclear is not None:
+        ctx.error("expanddof: test on the expanded components not recognised", unclear[0].ret_node, _show(unclear[1]))
+    else:
+        ctx.check(bad is None and guard, "expanddof: expanded components > 6 are refused before returning", digits[0][0].ret_node,
+                  None if bad is None and guard else {"regime": (bad or digits[0][0]).describe()})
     # the early-return arm is taken only when no component exceeds 6
-    early = [st for st in ast.walk(fn) if isinstance(st, ast.If) and "max()<=6" in ast.unparse(st.test).replace(" ", "")]
-    ctx.check(bool(early), "expanddof: unexpanded return only when every component <= 6", fn)
+    asis = [t for t in kinds if t[1] == "as-is"]
+    bad = _first(asis, lambda t: _some_exceed(t[0], _col(t[0].ret, 1), 6) is not False and _some_exceed(t[0], _col(t[2], 1), 6) is not False)
+    ctx.check(bool(asis) and bad is None, "expanddof: unexpanded return only when every component <= 6", (bad[0].ret_node if bad else None) or fn,
+              None if bad is None else {"regime": bad[0].describe()})
     # 1-D ids: 1..6 or 0..6 by grids_only
-    rg = [st for st in ast.walk(fn) if isinstance(st, ast.Assign) and isinstance(st.value, ast.IfExp)
-          and ast.unparse(st.value).replace(" ", "") == "range(1,7)ifgrids_onlyelserange(7)"]
-    ctx.check(bool(rg), "expanddof: 1-D input expands to components 1..6 (grids_only) or 0..6", fn)
+    ids = [t for t in kinds if t[1] == "ids"]
+    good = bool(ids)
+    det = None
+    seen = set()
+    v0, v1 = F.sym("@v0"), F.sym("@v1")
+    for p, k, v in ids:
+        a = app(v, "comp")
+        g1 = app(a[1], "gen") if a and len(a) == 3 else None
+        g2 = app(a[2], "gen") if a and len(a) == 3 else None
+        ok = bool(g1) and bool(g2) and len(g1) == 1 and len(g2) == 1 and same(a[0], F.fn("tuple", v0, v1)) and sym_of(strip(g1[0])) == dofp
+        go = p.decided(F.sym(gop))
+        for g in (True, False):
+            if go is not None and go != g:
+                continue
+            seen.add(g)
+            want = [F.fn("call:range", F.const(1), F.const(7))] if g else [F.fn("call:range", F.const(7)), F.fn("call:range", F.const(0), F.const(7))]
+            if not (ok and any(same(g2[0], w) for w in want)):
+                good = False
+                det = det or {"regime": p.describe(), "grids_only": g, "returned": _show(v)}
+    ctx.check(good and seen == {True, False}, "expanddof: 1-D input expands to components 1..6 (grids_only) or 0..6", fn, det)
 
 
 RULES = [
